@@ -34,8 +34,10 @@ RULE += " Added after the seeded rounds: " + 'Operations are retried under the s
 EXHAUSTIVE_NOTE = {"quick": "all request lists of length <= 3 over {r1,r2} (15) x 6 work x 4 validate x 3 background settings x 2 paths = 2160 plans, complete",
                    "thorough": "all request lists of length <= 4 over {r1,r2,zz} (121) x 6 work x 4 validate x 3 background settings x 2 paths = 17424 plans, complete"}
 
-WORK = ["return", "raise", "kill-self", "maintenance", "shutdown", "nested"]
-VALID = ["none", "true", "false", "raise"]
+# "cancel" / "interrupt": the callback ends with asyncio.CancelledError / KeyboardInterrupt - BaseException, not Exception: the call propagates it,
+# but "however a coordinated operation ends ... when the call returns no registered resource is still owned by that operation"
+WORK = ["return", "raise", "kill-self", "maintenance", "shutdown", "nested", "cancel", "interrupt"]
+VALID = ["none", "true", "false", "raise", "cancel"]
 CPK = ["pass", "pass", "pass", "false", "raise"]
 RIDS = ["r1", "r2", "r3"]
 
@@ -193,7 +195,7 @@ def judge(case):
         if stop:
             out.label("req:" + stop)
             out.nontrivial = True
-        if work != "return" or val in ("false", "raise"):
+        if work != "return" or val in ("false", "raise", "cancel"):
             out.label("fault:work=%s" % work, "fault:validate=%s" % val)
             out.nontrivial = True
         log = []
@@ -204,6 +206,11 @@ def judge(case):
             if work == "raise":
                 from pbt.props._exc import make
                 raise make(i + len(req), "work crashed")
+            if work == "cancel":
+                import asyncio
+                raise asyncio.CancelledError()
+            if work == "interrupt":
+                raise KeyboardInterrupt()
             if work == "kill-self":
                 system.kill_operation(tid, "self")
             elif work == "maintenance":
@@ -221,6 +228,9 @@ def judge(case):
             if val == "raise":
                 from pbt.props._exc import make
                 raise make(i + prio, "validate crashed")
+            if val == "cancel":
+                import asyncio
+                raise asyncio.CancelledError()
             return val == "true"
 
         try:
@@ -233,6 +243,11 @@ def judge(case):
         except Exception as e:
             out.fail("raise:%s:execute" % type(e).__name__, "execute raised %s: %s" % (type(e).__name__, e), {"step": i, "op": op})
             return out
+        except (KeyboardInterrupt, BaseException) as e:
+            if type(e).__name__ not in ("CancelledError", "KeyboardInterrupt") or (work not in ("cancel", "interrupt") and val != "cancel"):
+                raise
+            success = False          # the cancellation / interrupt propagates to the caller (fine); the operation has ended all the same
+            out.label("base-exception-propagated")
         after = snapshot()
         d = {"step": i, "op": op, "path": case["path"], "before": before, "after": after, "log": [list(x[:1]) for x in log], "success": success}
 
@@ -240,7 +255,7 @@ def judge(case):
         leaked = sorted(rid for rid, (owner, _hc) in after.items() if owner == tid)
         if leaked:
             kind = "reentrant-hold-count" if any(req.count(r) > 1 for r in leaked) else "exit-path"
-            exitp = stop or ("work=%s" % work if work != "return" else ("validate=%s" % val if val in ("false", "raise") else "commit"))
+            exitp = stop or ("work=%s" % work if work != "return" else ("validate=%s" % val if val in ("false", "raise", "cancel") else "commit"))
             out.fail("leak:%s:%s" % (kind, exitp if kind == "exit-path" else "any"),
                      "operation %s returned but still owns %s" % (tid, leaked), d)
             return out
